@@ -532,3 +532,46 @@ pub open spec fn base_of(name: Seq<char>) -> Seq<char> {
 pub open spec fn version_of(name: Seq<char>) -> Seq<char> {
     if last_index_of(name, '-') >= 0 { name.skip(last_index_of(name, '-') + 1) } else { Seq::<char>::empty() }
 }
+
+// ---------------- sub-string search / splitting on a literal separator ----------------
+/// index of the first occurrence of sep (searching from `from`), or -1
+pub open spec fn first_sub_from(cs: Seq<char>, sep: Seq<char>, from: int) -> int decreases cs.len() - from {
+    if from < 0 || from + sep.len() > cs.len() { -1 }
+    else if sep.is_prefix_of(cs.skip(from)) { from }
+    else { first_sub_from(cs, sep, from + 1) }
+}
+pub open spec fn first_sub(cs: Seq<char>, sep: Seq<char>) -> int { first_sub_from(cs, sep, 0) }
+/// str::split_terminator(sep): pieces between successive (non-overlapping, left to right) separators; no empty final piece
+pub open spec fn split_term(cs: Seq<char>, sep: Seq<char>) -> Seq<Seq<char>> decreases cs.len() {
+    if cs.len() == 0 || sep.len() == 0 { Seq::<Seq<char>>::empty() } else {
+        let i = first_sub(cs, sep);
+        if i < 0 || i + sep.len() > cs.len() { seq![cs] } else { seq![cs.take(i)] + split_term(cs.skip(i + sep.len()), sep) }
+    }
+}
+// shim D6.rfind_lit
+#[verifier::external_body]
+fn shim_rfind_str(s: &str, p: &str) -> (r: Option<usize>)
+    ensures (match r { Some(i) => last_sub(s@, p@) >= 0 && i == boff(s@, last_sub(s@, p@)), None => last_sub(s@, p@) < 0 })
+{ s.rfind(p) }
+// shim D6.split_terminator_lit
+#[verifier::external_body]
+fn shim_split_terminator<'a>(s: &'a str, p: &str) -> (r: Vec<&'a str>)
+    ensures r@.len() == split_term(s@, p@).len(), forall|i: int| 0 <= i < r@.len() ==> (#[trigger] r@[i])@ == split_term(s@, p@)[i]
+{ s.split_terminator(p).collect() }
+
+pub proof fn lemma_last_sub_upto(cs: Seq<char>, lit: Seq<char>, upto: int)
+    requires upto <= cs.len() - lit.len()
+    ensures -1 <= last_sub_upto(cs, lit, upto), last_sub_upto(cs, lit, upto) <= upto || last_sub_upto(cs, lit, upto) == -1,
+        last_sub_upto(cs, lit, upto) >= 0 ==> lit.is_prefix_of(cs.skip(last_sub_upto(cs, lit, upto))),
+        forall|j: int| last_sub_upto(cs, lit, upto) < j <= upto && 0 <= j ==> !lit.is_prefix_of(cs.skip(j)),
+    decreases upto + 1
+{
+    if upto >= 0 && !(upto <= cs.len() && lit.is_prefix_of(cs.skip(upto))) { lemma_last_sub_upto(cs, lit, upto - 1); }
+}
+pub proof fn lemma_last_sub(cs: Seq<char>, lit: Seq<char>)
+    ensures -1 <= last_sub(cs, lit) <= cs.len() - lit.len() || last_sub(cs, lit) == -1,
+        last_sub(cs, lit) >= 0 ==> lit.is_prefix_of(cs.skip(last_sub(cs, lit))),
+        forall|j: int| last_sub(cs, lit) < j <= cs.len() - lit.len() && 0 <= j ==> !lit.is_prefix_of(cs.skip(j)),
+{
+    lemma_last_sub_upto(cs, lit, cs.len() - lit.len());
+}
